@@ -198,7 +198,8 @@ VARIANTS = {
     "C15": [
         V("inner product imaginary sign", CX, "torch.dot(real(x), imag(y)) - torch.dot(imag(x), real(y))", "torch.dot(real(x), imag(y)) + torch.dot(imag(x), real(y))"),
         V("kronecker index order", CX, "einsum('ab,cd->acbd', x, y)", "einsum('ab,cd->cadb', x, y)"),
-        V("out= aliasing check weakened", CX, "out is x or out is y", "out is x"),
+        V("out= aliasing check weakened", CX, "_share_storage(out, x) or _share_storage(out, y)", "_share_storage(out, x)"),
+        V("out= aliasing check by identity only", CX, "_share_storage(out, x) or _share_storage(out, y)", "out is x or out is y"),
         V("inverse without conjugation", CX, "return z_star / denominator", "return z / denominator"),
         V("conjugate transpose without conjugation", CX, "-torch.transpose(imag(x), 0, 1)", "torch.transpose(imag(x), 0, 1)"),
         V("real() returns a copy", CX, "return x[0, ...]", "return x[0, ...].clone()"),
